@@ -253,7 +253,16 @@ func runC07(c *Ctx) {
 				okStage := false
 				for _, g := range []*ssa.Function{in.Parent(), dec} {
 					for _, pc := range callsToFn(g, prepareRead) {
-						if stripConv(pc.Common().Args[1]) == stripConv(sl.High) || stripConv(pc.Common().Args[1]) == stripConv(tr(sl.High)) {
+						sameAmount := func(a, b ssa.Value) bool {
+							a, b = stripConv(a), stripConv(b)
+							if a == b {
+								return true
+							}
+							ka, okA := constInt(a)
+							kb, okB := constInt(b)
+							return okA && okB && ka == kb
+						}
+						if sameAmount(pc.Common().Args[1], sl.High) || sameAmount(pc.Common().Args[1], tr(sl.High)) {
 							if guardedNil(in.Block(), pc.(ssa.Value)) || (in.Parent() != dec && guardedNil(site.Block(), pc.(ssa.Value))) {
 								okStage = true
 							}
